@@ -53,7 +53,9 @@ class ExprMixin:
             v = self.lookup(e.segs[0][0])
             if v is None:
                 return None
-            return Place(lambda: v.lean, v.ty, lambda t, v=v, line=e.line: self.assign_var(v, t, line))
+            pl = Place(lambda: v.lean, v.ty, lambda t, v=v, line=e.line: self.assign_var(v, t, line))
+            pl.var = v
+            return pl
         if k == 'TupleField':
             base = self.try_place(e.obj)
             if base is None:
@@ -118,6 +120,11 @@ class ExprMixin:
         return None
 
     def assign_var(self, v, t, line=None):
+        if getattr(v, 'alias_set', None) is not None:
+            # v aliases a hash-map entry (`get_mut`): write through; the local copy must not be read afterwards
+            v.alias_set(t)
+            v.stale = True
+            return
         if not v.mutable:
             self.fail('assignment to the immutable binding `%s`' % v.lean, line)
         if self.pure:
@@ -154,19 +161,31 @@ class ExprMixin:
             name = segs[0][0]
             v = self.lookup(name)
             if v is not None:
+                if getattr(v, 'stale', False):
+                    self.fail('`%s` (a `get_mut` alias) is read after it was written through' % name, e.line)
                 return v.lean, v.ty
             if name == 'None':
                 return 'none', ('opt', TVar())
             if name == 'Some':
                 a = TVar()
                 return 'some', ('fn', (a,), ('opt', a))
+            if name in NEWTYPES:
+                return '(fun x => x)', ('fn', (NEWTYPE_INNER[NEWTYPES[name][0]],), NEWTYPES[name])
             sig = self.resolve_free(name, e.line, must=False)
             if sig is not None:
                 return self.fn_value(sig, e.line)
             self.fail('unknown name `%s`' % name, e.line)
         names = [s for s, _ in segs]
+        if len(names) == 2 and names[0] == 'ErrorKind' and names[1] in ('UnexpectedEof', 'Interrupted', 'WriteZero', 'Other'):
+            return 'Rust.ErrorKind.' + names[1][0].lower() + names[1][1:], ('errkind',)
+        if len(names) == 2 and names[0] == 'Ordering' and names[1] in ('Less', 'Equal', 'Greater'):
+            return {'Less': 'Ordering.lt', 'Equal': 'Ordering.eq', 'Greater': 'Ordering.gt'}[names[1]], ('ordering',)
         if len(names) == 2 and names[0] in INT_MAX and names[1] == 'MAX':
             return str(INT_MAX[names[0]]), INT(names[0])
+        if names[-2] == 'op_function' and names[-1] in ('and', 'or', 'imp', 'iff', 'xor', 'and_not'):
+            # the six tables are regenerated from src/op_function.rs by tools/gen_lean.py (Gen/OpTables.lean)
+            ob = ('opt', BOOL)
+            return 'Gen.%s_' % names[-1], ('fn', (ob, ob), ob)
         sig = self.resolve_path_fn(names, e.line)
         if sig is None:
             self.fail('unknown path `%s`' % '::'.join(names), e.line)
@@ -205,7 +224,9 @@ class ExprMixin:
         return '#[' + ', '.join(p[0] for p in parts) + ']', ('vec', el)
 
     def ex_Repeat(self, e):
-        self.fail('array repeat expression `[x; n]` is not supported', e.line)
+        x, xt = self.ex(e.elem)
+        n, _ = self.ex(e.len)
+        return 'Rust.vecRepeat %s %s' % (par(x), par(n)), ('vec', xt)
 
     def ex_Field(self, e):
         pl = self.try_place(e)
@@ -326,6 +347,14 @@ class ExprMixin:
                 s = 'Rust.pvalEq %s %s' % (par(l), par(r))
                 return (s if op == '==' else '!(%s)' % s), BOOL
             return '%s %s %s' % (par(l), op, par(r)), BOOL
+        if op in ('<', '<=', '>', '>=') and not isinstance(lt, TVar) and lt[0] == 'tuple':
+            parts = [res(x) for x in lt[1]]
+            if len(parts) == 2 and not isinstance(parts[0], TVar) and parts[0][0] == 'int' and parts[1] == BOOL:
+                # derived lexicographic order on (integer, bool), false < true
+                a, b = (par(l), par(r)) if op in ('<', '>=') else (par(r), par(l))
+                t = 'Rust.ltNatBool %s %s' % (a, b)
+                return (t if op in ('<', '>') else '!(%s)' % t), BOOL
+            self.fail('ordering comparison on tuple type %r' % (deep(lt),), e.line)
         if op in ('<', '<=', '>', '>='):
             for t_ in (lt, rt):
                 if isinstance(t_, TVar) or t_[0] not in ('int', 'ptr', 'var', 'big'):
@@ -509,7 +538,20 @@ class ExprMixin:
                 self.fail('format! needs a literal format string', e.line)
             # the arguments are evaluated for their panics in Rust only through Debug/Display, which the
             # subset treats as pure: the message text is never compared, only the template is kept
-            return lean_str(e.args[0].val), STR
+            tmpl = e.args[0].val
+            pieces = tmpl.split('{}')
+            if len(e.args) > 1 and '{' not in ''.join(pieces) and len(pieces) == len(e.args):
+                # plain `{}` placeholders over integers / strings: the text is data (e.g. variable names `x_{}`)
+                out = [lean_str(pieces[0])]
+                for a, piece in zip(e.args[1:], pieces[1:]):
+                    t, ty = self.ex(a)
+                    ty = res(ty)
+                    if isinstance(ty, TVar) or ty[0] not in ('int', 'str', 'var', 'ptr'):
+                        self.fail('format! argument of type %r' % (ty,), e.line)
+                    out.append(t if ty[0] == 'str' else 'toString %s' % par(t))
+                    out.append(lean_str(piece))
+                return ' ++ '.join(par(x) for x in out), STR
+            return lean_str(tmpl), STR
         self.fail('macro `%s!` is not supported' % name, e.line)
 
     # ------------------------------------------------------------------------------------------ calls
@@ -536,6 +578,13 @@ class ExprMixin:
                     inner_want = w[1] if (w is not None and not isinstance(w, TVar) and w[0] == 'opt') else None
                     t, ty = self.ex(e.args[0], want=inner_want)
                     return 'some ' + par(t), ('opt', ty)
+                if name in ('Ok', 'Err') and len(f.segs[0][1]) == 2:
+                    # `Ok::<T, E>(x)`: both type arguments are explicit
+                    tt, et = self.conv(f.segs[0][1][0]), self.conv(f.segs[0][1][1])
+                    t, ty = self.ex(e.args[0], want=(tt if name == 'Ok' else et))
+                    lt = lean_type(('result', tt, et), self.tr.struct_fields)
+                    if lt is None: self.fail('unresolved type arguments of %s::<..>' % name, e.line)
+                    return '(Except.%s %s : %s)' % ('ok' if name == 'Ok' else 'error', par(t), lt), ('result', tt, et)
                 if name == 'Ok':
                     t, ty = self.ex(e.args[0])
                     return 'Except.ok ' + par(t), ('result', ty, TVar())
@@ -584,9 +633,18 @@ class ExprMixin:
         if head == 'Vec' and fn == 'with_capacity':
             n, _ = self.ex(args[0])
             return 'Rust.vecWithCapacity %s' % par(n), ('vec', TVar())
+        if head == 'HashSet' and fn == 'from_iter':
+            t, ty = self.ex(args[0])
+            ty = res(ty)
+            if isinstance(ty, TVar) or ty[0] not in ('vec', 'iter'):
+                self.fail('HashSet::from_iter of %r' % (ty,), e.line)
+            return 'Rust.hashSetFromArr %s' % par(t), ('set', ty[1])
         if head == 'Vec' and fn == 'from_iter':
             t, ty = self.ex(args[0])
             ty = res(ty)
+            if not isinstance(ty, TVar) and ty[0] == 'set':
+                # hash order: the result may only be measured or sorted (type `uvec`) until `.sort()` is called
+                return '%s.toArray' % par(t), ('uvec', ty[1])
             if isinstance(ty, TVar) or ty[0] not in ('vec', 'iter'):
                 self.fail('Vec::from_iter of %r (hash-ordered sources are not translated)' % (ty,), e.line)
             return t, ('vec', ty[1])
@@ -600,11 +658,17 @@ class ExprMixin:
         if head in INT_RANK and fn == 'from':
             t, ty = self.ex(args[0])
             ty = res(ty)
+            if ty == BOOL:
+                return '(if %s then 1 else 0)' % t, INT(head)
             if isinstance(ty, TVar) or ty[0] != 'int':
                 self.fail('%s::from of %r' % (head, ty), e.line)
             return t, INT(head)
+        if head in ('u16', 'u32', 'u64') and fn == 'from_le_bytes':
+            t, ty = self.ex(args[0])
+            return 'Rust.fromLeBytes %s' % par(t), INT(head)
         if head == 'u16' and fn == 'try_from':
             t, ty = self.ex(args[0])
+            if res(ty)[0] != 'int': return None
             return 'Rust.u16TryFrom %s' % par(t), ('result', INT('u16'), UNIT)
         if head == 'BigInt' and fn == 'from':
             t, ty = self.ex(args[0])
@@ -632,6 +696,21 @@ class ExprMixin:
                     t, ty = self.ex(self.strip(a), want=pty)
             else:
                 t, ty = self.ex(a, want=pty)
+            rp, ra = res(pty), res(ty)
+            if mutref and not isinstance(rp, TVar) and rp[0] in ('writer', 'reader') and not isinstance(ra, TVar) and ra[0] == 'vec':
+                # a `Vec<u8>` passed as `&mut dyn Write`, a `&[u8]` passed as `&mut dyn Read`
+                unify(ra[1], INT('u8'))
+                inner = places.get(k)
+                if rp[0] == 'writer':
+                    t = 'Rust.Writer.ofVec %s' % par(t)
+                    back = (lambda m, inner=inner: inner.set('%s.out' % par(m))) if inner is not None else None
+                else:
+                    t = 'Rust.Reader.ofSlice %s' % par(t)
+                    back = (lambda m, inner=inner: inner.set('%s.data.toArray' % par(m))) if inner is not None else None
+                if back is not None:
+                    places[k] = Place(lambda: None, pty, back)
+                terms.append(par(t))
+                continue
             if not unify(ty, pty):
                 self.fail('argument %d of %s: expected %r, found %r' % (k + 1, sig.lean, deep(pty), deep(ty)), line)
             terms.append(par(t))
